@@ -215,6 +215,7 @@ pub fn scenario(g: &mut G, ctx: &RunCtx) -> RunReport {
         end: End::Fin,
         faults: attosim::ConnFaults { window: 65536, coalesce: g.chance(1, 4), ..Default::default() },
         via_text_reader,
+        tls: false,
         read_mode,
         rereads: if damage.is_empty() { 0 } else { g.below(3) as usize },
         read_timeout_ms: 30_000,
